@@ -72,6 +72,14 @@ Proof.
   - generalize (mapply O R (vsub O p og)). intros q. vring.
 Qed.
 
+(* the list / tuple form of rotate: R = Rz Ry Rx, i.e. every vertex is turned about x, then about y, then about z *)
+Lemma euler_form_is_x_then_y_then_z Rx Ry Rz v :
+  mapply O (euler_compose O Rx Ry Rz) v = mapply O Rz (mapply O Ry (mapply O Rx v)).
+Proof.
+  unfold euler_compose. rewrite euler_angles_about_fixed_axes.
+  rewrite (mapply_mmul Ry Rx v), (mapply_mmul Rz (mmul Ry Rx) v). reflexivity.
+Qed.
+
 (* ---------------------------------------------------------------- every vertex exactly once (world level) *)
 Lemma obj_cells_retarget (w : world) i so m' cs' :
   nth_error (wobjs w) i = Some so -> obj_cells (retarget w i so (m', cs')) i = cs'.
